@@ -3,7 +3,7 @@
 From Coq Require Import NArith Bool List.
 Import ListNotations.
 From XetModel Require Import Base.Codec Gen.ShardLayout Gen.DedupFacts Model.Merkle Model.Shard Model.Dedup Proofs.PipelineProofs Proofs.ResolveProofs Proofs.ReuploadProofs.
-From XetModel Require Import Gen.ManagerFacts Model.Manager Proofs.ShardSizeProofs Proofs.ShardDedupWholeProofs Proofs.ManagerProofs Proofs.ManagerWholeProofs.
+From XetModel Require Import Gen.ManagerFacts Model.Manager Proofs.ShardSizeProofs Proofs.ShardDedupWholeProofs Proofs.ManagerProofs Proofs.ManagerWholeProofs Proofs.ReuploadManagerProofs.
 Open Scope N_scope.
 
 (* invariant "every xorb handed to the upload path has its CAS info in the session shard", preserved by every session step *)
@@ -119,6 +119,24 @@ Theorem C11_manager_example :
   /\ length (b_known (g_book (mgr_run true 100 1000000 wx_ops))) = 1%nat.
 Proof. exact wx_found. Qed.
 
+
+(* the deduper and the manager put together: with the manager's chunk_hash_dedup_query as the data interface (errors read as "no
+   answer"), a file whose chunks are all recorded in blocks the manager was given -- flushed to a shard file or still in memory --
+   stores nothing, cuts nothing and counts no new byte; below the cap, fragmentation prevention refusing nothing *)
+Theorem C11_known_file_through_the_manager_stores_nothing : forall ra cap target ops, shards_ok ops -> N.of_nat (length ops) <= 65536 -> blocks_ok ops ->
+  b_total (g_book (mgr_run ra cap target ops)) < cap ->
+  (forall c, In c (b_colls (g_book (mgr_run ra cap target ops))) -> k_key c = zero_hash -> NoTruncClash c) ->
+  forall bbd cf (chunks : list chunk), AllowAll cf -> (forall c, In c chunks -> KnownToManager ops (fst c)) ->
+  let f := process_chunks bbd cf fd0 chunks (pass1 (length chunks) (mgr_ask (mgr_run ra cap target ops)) (map fst chunks)) in
+  f_new f = [] /\ f_new_xorbs f = [] /\ f_registered f = [] /\ m_new_bytes (f_metrics f) = 0 /\ m_new_chunks (f_metrics f) = 0.
+Proof. exact known_file_through_manager_stores_nothing. Qed.
+Theorem C11_through_the_manager_example :
+  let chunks : list chunk := [(repeat 12 32%nat, 20); (repeat 14 32%nat, 40)] in
+  (forall c, In c chunks -> KnownToManager wx_ops (fst c)) /\
+  let f := process_chunks false rx_cfg fd0 chunks (pass1 (length chunks) (mgr_ask (mgr_run true 100 1000000 wx_ops)) (map fst chunks)) in
+  f_new f = [] /\ m_new_bytes (f_metrics f) = 0 /\ m_deduped_bytes (f_metrics f) = 60 /\ length (f_info f) = 2%nat.
+Proof. exact reupload_manager_example. Qed.
+
 Print Assumptions C11_completion_recorded.
 Print Assumptions C11_finalize_recorded.
 Print Assumptions C11_session_recorded.
@@ -133,3 +151,4 @@ Print Assumptions C11_registered_chunk_found.
 Print Assumptions C11_added_chunk_found_across_flushes.
 Print Assumptions C11_manager_example.
 Print Assumptions C11_counter_by_table_size_refuted.
+Print Assumptions C11_known_file_through_the_manager_stores_nothing.
